@@ -71,7 +71,7 @@ let listing t =
   end
 
 let request a n1 n2 =
-  match fs_request (n_of_string a) (name n1) (name n2) with
+  match fs_mk_request (n_of_string a) (name n1) (name n2) with
   | Some r -> r
   | None -> failwith ("fsmodel: bad action " ^ a)
 
